@@ -34,7 +34,7 @@ CONFIG = {
     "thorough": {"shards": 32, "d2_sample": -1, "d3_sample": 2000, "layouts_per_ann": 99, "watchdog_s": 3400},
 }
 
-LAYOUTS = ["single", "inherit", "override_prop", "override_child", "noninit", "flags", "none_default", "override_none_default", "multi_base_empty"]
+LAYOUTS = ["single", "inherit", "override_prop", "override_child", "noninit", "flags", "none_default", "override_none_default", "multi_base_empty", "self_ref"]
 
 
 def spellings_for(a):
@@ -65,6 +65,9 @@ def class_sources(P, k, a, layout, spelling):
         return [(T, f"{deco}class {T}(ASTNode):\n    y: int = 0\n    x: {ann} = field(default={dflt}, init=False)\n", True)]
     if layout == "flags":
         return [(T, f"{deco}class {T}(ASTNode):\n    y: int = 0\n    x: {ann} = field(default={dflt}, compare=False, repr=False, kw_only=True, hash=False)\n", True)]
+    if layout == "self_ref":
+        # the class refers to itself in another field (quoted): its annotations cannot be checked at definition time
+        return [(T, f"{deco}class {T}(ASTNode):\n    x: {ann} = {dflt}\n    nxt: '{T} | None' = None\n    y: int = 0\n", True)]
     if layout == "multi_base_empty":
         # the field comes from the *second* base of a class that declares nothing itself
         B2 = f"{P}C{k}"
